@@ -827,6 +827,14 @@ func propC05(w *World, r *Report, tier string) {
 	}
 	r.Trusted = []string{"go/types constant evaluation", "spec/ts24501_messages.json message-type values (TS 24.501 Table 9.7.1/9.7.2, Appendix A of DESIGN.md)"}
 	r.Exhaustive = true
+	{
+		var how []string
+		for n, h := range d.Semantic {
+			how = append(how, n+": "+h)
+		}
+		sort.Strings(how)
+		r.Sample(map[string]any{"rule": "dispatch.decided-by", "functions": how})
+	}
 	// PlainNasDecode
 	pd := d.Plain
 	pn := "nas.(*Message).PlainNasDecode"
